@@ -140,7 +140,7 @@ MONTHS_EN = ["January", "February", "March", "April", "May", "June", "July", "Au
 @st.composite
 def source_strings(draw):
     if draw(st.integers(0, 2)) > 0:
-        e = corpus()[draw(st.integers(0, len(corpus()) - 1))]
+        e = draw(st.sampled_from(corpus()))
         lang = e["locale"] if e["locale"] in data.language_order() else e["locale"].rsplit("-", 1)[0]
         return e["s"], lang, "corpus"
     from checks import c10
